@@ -26,6 +26,10 @@ DESIGN.md §7) is NOT proved: on that level the property is decided by the monit
 implementation traces plus trace acceptance of the model (`_partial` in the sense of DESIGN.md).
 -/
 import GgrsModel.Model.Inventory
+import GgrsModel.Model.Sites.P2pSession
+import GgrsModel.Model.Sites.SyncLayer
+import GgrsModel.Model.Sites.InputQueue
+import GgrsModel.Model.Sites.Protocol
 import GgrsModel.Properties.C11
 import GgrsModel.Properties.C03
 import GgrsModel.Properties.C04
